@@ -33,6 +33,40 @@ def _one(prop, m):
         shutil.rmtree(d, ignore_errors=True)
 
 
+BENIGN = os.path.join(facts.VERIF, "selftest", "benign")
+
+
+def _benign(prop, patch):
+    d = tempfile.mkdtemp(prefix="cbv-benign-")
+    try:
+        subprocess.check_call(["rsync", "-a", "--exclude", "target", "--exclude", ".git", facts.REPO + "/", d + "/"])
+        p = subprocess.run(["patch", "-p1", "-s", "--no-backup-if-mismatch", "-i", os.path.join(BENIGN, patch)], cwd=d,
+                           stdout=subprocess.PIPE, stderr=subprocess.STDOUT, text=True)
+        if p.returncode != 0:
+            return {"patch": patch, "kind": "benign", "outcome": "patch-does-not-apply"}
+        env = dict(os.environ, CBV_REPO=d)
+        r = subprocess.run(["python3", "-m", "analysis.main", prop, "--tier", "quick"], cwd=facts.VERIF, env=env,
+                           stdout=subprocess.PIPE, stderr=subprocess.STDOUT, text=True)
+        keys = [l.split("key=", 1)[1].strip() for l in r.stdout.splitlines() if "key=" in l]
+        if r.returncode == 0 and "VIOLATION" not in r.stdout:
+            return {"patch": patch, "kind": "benign", "outcome": "silent"}
+        return {"patch": patch, "kind": "benign", "outcome": "FALSE-ALARM", "reported": keys[:5], "tail": r.stdout[-300:]}
+    finally:
+        shutil.rmtree(d, ignore_errors=True)
+
+
+def run_benign(prop):
+    idx = os.path.join(BENIGN, "index.json")
+    if not os.path.exists(idx):
+        return []
+    with open(idx) as fh:
+        patches = json.load(fh).get("per_property", {}).get(prop, [])
+    if not patches:
+        return []
+    with concurrent.futures.ThreadPoolExecutor(max_workers=min(5, len(patches))) as ex:
+        return list(ex.map(lambda p: _benign(prop, p), patches))
+
+
 def run(prop):
     idx = os.path.join(MUT, "index.json")
     if not os.path.exists(idx):
